@@ -49,6 +49,7 @@ type QCfg struct {
 	ShortReads      int      `json:"short_reads"` // 0 off, else 1/n chance to cut a read
 	TLS             bool     `json:"tls"`
 	TopicDiskFaults int      `json:"topic_disk_faults,omitempty"` // one in N writes to a topic's queue file fails (0 = never)
+	UnixSocket      bool     `json:"unix_socket,omitempty"` // nsqd's client port is a unix-domain socket
 	E2E             bool     `json:"e2e_percentiles,omitempty"` // --e2e-processing-latency-percentile given (quantile streams on every topic and channel)
 	Topology        bool     `json:"topology_aware,omitempty"` // --enable-experiment=topology-aware-consumption with region/zone set
 	Steer           []SteerRule `json:"steer,omitempty"`
@@ -259,6 +260,9 @@ func (w *qWorld) newOptions() *nsqd.Options {
 	o.Logger = &simLogger{rc: w.rc, name: "nsqd"}
 	o.LogLevel = 2 // INFO
 	o.TCPAddress = "127.0.0.1:4150"
+	if c.UnixSocket {
+		o.TCPAddress = "/sim/nsqd.sock" // clients connect through a unix-domain socket: they all have the same (unnamed) address
+	}
 	o.HTTPAddress = "127.0.0.1:4151"
 	o.HTTPSAddress = "127.0.0.1:4152"
 	o.BroadcastAddress = "127.0.0.1"
@@ -313,6 +317,9 @@ func (w *qWorld) startNSQD() error {
 	go func() { w.mainDone <- n.Main() }()
 	w.mainStart = time.Now()
 	w.tcpAddr = "127.0.0.1:4150"
+	if w.cfg.UnixSocket {
+		w.tcpAddr = "/sim/nsqd.sock"
+	}
 	w.httpAddr = "127.0.0.1:4151"
 	w.lifetime++
 	synctest.Wait()
